@@ -235,6 +235,21 @@ def _thread_locs(node, st):
             stack.extend(reversed(n))
 
 
+def _prune_comments(node):
+    """Documentation comments (`///`, `/** */`) are attached to declarations as FullComment children; they are not code and
+    must not be mistaken for an initialiser (the last child of a VarDecl)."""
+    stack = [node]
+    while stack:
+        n = stack.pop()
+        ch = n.get("inner")
+        if not ch:
+            continue
+        if any(isinstance(c, dict) and str(c.get("kind", "")).endswith("Comment") for c in ch):
+            ch = [c for c in ch if not (isinstance(c, dict) and str(c.get("kind", "")).endswith("Comment"))]
+            n["inner"] = ch
+        stack.extend(c for c in ch if isinstance(c, dict))
+
+
 def load_dump(path):
     s = open(path).read()
     dec = json.JSONDecoder()
@@ -251,5 +266,6 @@ def load_dump(path):
             continue
         o, i = dec.raw_decode(s, i)
         _thread_locs(o, [None, None])
+        _prune_comments(o)
         objs.append(o)
     return objs
